@@ -417,6 +417,17 @@ def scenario_string_value_roundtrip(exe, workroot):
     return False, 'string values with backslash / quote round-trip'
 
 
+def scenario_deep_angles(exe, workroot):
+    """C06: thousands of nested '<' must not crash the template check"""
+    d = _tmp(workroot)
+    cfg = _cfg(d, '')
+    src = ('int x = ' + ' < '.join(['a'] * 3000) + ';\n').encode()
+    rc, out, err = run(exe, ['-c', cfg, '-l', 'CPP', '-q'], stdin=src)
+    if rc < 0 or rc >= 128:
+        return True, "3000 nested '<' end the process abnormally (status %d)" % rc
+    return False, "deeply nested '<' handled (exit %d)" % rc
+
+
 def scenario_lang_leak(exe, workroot):
     d = _tmp(workroot)
     a, b = os.path.join(d, 'A.c'), os.path.join(d, 'B.c')
